@@ -26,8 +26,21 @@ Proof. exact exp01_cdf. Qed.
 Theorem C16_f_range : forall lambda x, 0 < lambda -> 0 <= x <= 1 -> 0 <= f01 lambda x <= 1.
 Proof. exact exp01_f_range. Qed.
 
+(* every value the sampler can return lies in [0,1): the control flow of sample() over the reals (first try
+   c1 * u0 returned if < 1; then rounds on two unit draws with the early return x < c2, the reflection of the
+   upper triangle and the three generated tests), for every rate and all unit draws in [0,1) *)
+Theorem C16_returned_values_in_unit_interval : forall lambda u0 ux uy x, 0 < lambda ->
+  0 <= u0 < 1 -> 0 <= ux < 1 -> 0 <= uy < 1 ->
+  (first_try lambda u0 = Some x -> 0 <= x < 1) /\ (one_round lambda ux uy = Accept x -> 0 <= x < 1).
+Proof.
+  intros lambda u0 ux uy x Hl H0 Hx Hy. split.
+  - exact (exp01_first_try_range lambda u0 x Hl H0).
+  - exact (exp01_round_range lambda ux uy x Hx Hy).
+Qed.
+
 Print Assumptions C16_accept_iff.
 Print Assumptions C16_c2_is_half.
 Print Assumptions C16_mixture.
 Print Assumptions C16_cdf.
 Print Assumptions C16_f_range.
+Print Assumptions C16_returned_values_in_unit_interval.
